@@ -225,6 +225,9 @@ def materialise_assembly(case):
         if ann is not None:
             spec["annotations"] = ann
         spec = _rotate_spec(rng, spec, r)
+        lt = gen.letter_track_variety(n, case["seed"], "assembly", case["enzyme"], case["i"], idx)
+        if lt is not None:
+            spec["letters"] = lt         # a per-letter track (sequencing quality) in one of the three legal container types
         spec["built"] = {"rot_left": r, "frag_start_unrotated": b["frag_start"], "frag_len": b["frag_len"]}
         specs.append(spec)
     order = list(range(nm))
@@ -263,13 +266,24 @@ def run_assembly(mat, ctx=None, classes=None, records=None, kwargs=True, inspect
     looking at the parts before assembling them does - and then the *same entity objects* are assembled
     (default: every third case, decided by the case id)."""
     V, M = classes or gen.generic_classes(mat["enzyme"])
+    Ms = [M] * len(mat["modules"])
+    if classes is None:
+        # half of the generated assemblies use classes of the library's level hierarchy, in every pairing the sticky ends
+        # allow - the linear one (products into entry vectors ...) and the cyclic ones (devices back into cassette vectors)
+        rl = gen.rng_for("levels", mat.get("id"), mat["enzyme"], mat["vector"]["seq"][:16])
+        if rl.random() < 0.5:
+            vs, ms = gen.level_classes(mat["enzyme"])
+            V = vs[rl.choice(sorted(vs))]
+            Ms = [ms[rl.choice(sorted(ms))] for _ in mat["modules"]] if rl.random() < 0.5 else [ms[rl.choice(sorted(ms))]] * len(mat["modules"])
+            if ctx is not None:
+                ctx.count("assemblies_with_level_classes")
     if records is None:
         vrec = gen.make_record(mat["vector"])
         mrecs = [gen.make_record(m) for m in mat["modules"]]
     else:
         vrec, mrecs = records
     vec = V(vrec)
-    mods = [M(r) for r in mrecs]
+    mods = [Mi(r) for Mi, r in zip(Ms, mrecs)]
     if inspect_first is None:
         inspect_first = sum(map(ord, str(mat.get("id", "")))) % 3 == 0
     if inspect_first:
